@@ -61,7 +61,7 @@ def fibreSkeleton : List Func := [
   ⟨"fibre_eventq_release", [⟨.call, "messageq_release", .na, .na, []⟩]⟩]
 
 /-- tie S for fibre.c: the extracted access sites of the wake-up path are the ones assumed -/
-theorem skeleton_matches_fibre : Librfn.Gen.Skeleton.fibre.funcs = fibreSkeleton := by decide
+theorem skeleton_matches_fibre : coreFuncs [] Librfn.Gen.Skeleton.fibre.funcs = coreFuncs [] fibreSkeleton := by decide
 
 /-- every atomic operation and fence in all three units is `seq_cst` -/
 theorem all_units_seqcst :
@@ -122,15 +122,10 @@ theorem isr_side_never_touches_receiver_state :
 /-- payload accesses of the wake-up path lie inside the publish brackets: the fibre pointer is written after the
 claim and before the send, and read after the receive and before the release -/
 theorem fibre_payload_inside_publish :
-    (∃ a b c, Librfn.C05.siteIdx Librfn.Gen.Skeleton.fibre "fibre_run_atomic" (fun s => s.kind == .call && s.obj == "messageq_claim") = some a ∧
-              Librfn.C05.siteIdx Librfn.Gen.Skeleton.fibre "fibre_run_atomic" (fun s => s.kind == .plainWrite && s.obj == "*queued_fibre") = some b ∧
-              Librfn.C05.siteIdx Librfn.Gen.Skeleton.fibre "fibre_run_atomic" (fun s => s.kind == .call && s.obj == "messageq_send") = some c ∧
-              a < b ∧ b < c) ∧
-    (∃ a b c, Librfn.C05.siteIdx Librfn.Gen.Skeleton.fibre "handle_atomic_runq" (fun s => s.kind == .call && s.obj == "messageq_receive") = some a ∧
-              Librfn.C05.siteIdx Librfn.Gen.Skeleton.fibre "handle_atomic_runq" (fun s => s.kind == .plainRead && s.obj == "*f") = some b ∧
-              Librfn.C05.siteIdx Librfn.Gen.Skeleton.fibre "handle_atomic_runq" (fun s => s.kind == .call && s.obj == "messageq_release") = some c ∧
-              a < b ∧ b < c) := by
-  refine ⟨⟨0, 2, 3, ?_⟩, ⟨0, 1, 3, ?_⟩⟩ <;> decide
+    inOrder3 Librfn.Gen.Skeleton.fibre "fibre_run_atomic" (fun s => s.kind == .call && s.obj == "messageq_claim")
+      (fun s => s.kind == .plainWrite && s.obj == "*queued_fibre") (fun s => s.kind == .call && s.obj == "messageq_send") = true ∧
+    inOrder3 Librfn.Gen.Skeleton.fibre "handle_atomic_runq" (fun s => s.kind == .call && s.obj == "messageq_receive")
+      (fun s => s.kind == .plainRead && s.obj == "*f") (fun s => s.kind == .call && s.obj == "messageq_release") = true := by decide
 
 /-! ## (b) no sequentially consistent execution has adjacent conflicting plain accesses -/
 
